@@ -1,6 +1,6 @@
 """C16 — infix_notation honours precedence, associativity and arity.
 
-proof:           lean/PPProofs/Props/C16.lean and C16Left.lean about lean/PPModel/Mod/Infix.lean: `infixGrammar tbl` (the node table
+proof:           lean/PPProofs/Props/C16.lean, C16Left.lean and C16Gen.lean about lean/PPModel/Mod/Infix.lean: `infixGrammar tbl` (the node table
                  infix_notation builds, after streamline) parsed by `parseX` (the shared parse model + the captive `_FB`
                  lookahead class) yields `nest tbl t` on `render tbl t`, for ALL trees t in normal form (see META).
 tie:             (S) structure: the node table extracted from the LIVE infix_notation(...) object is compared, up to
@@ -21,22 +21,30 @@ from .. import common, corr_parse, gram
 from ..sexp import Sym, dumps, loads
 
 META = dict(
-    text="Lean theorem PP.Infix.infix_roundtrip_left_partial (PPProofs/Props/C16Left.lean), for ALL operator tables of class TL "
+    text="Lean theorem PP.Infix.infix_roundtrip_general_partial (PPProofs/Props/C16Gen.lean), for ALL operator tables of class G "
          "with ANY number of levels (in any order) and ALL expression trees of ALL sizes in the table's normal form, written "
          "with arbitrary blanks before every token and trailing blanks: parse_string(parse_all=True) of the model parser "
          "(shared parse model + the captive _FB lookahead) on infixGrammar(table) returns exactly [nest table tree] for every "
          "fuel from some point on - tighter levels nest inside looser ones, a LEFT-associative chain a op b op c is ONE flat "
-         "group [a, op, b, op, c] (chains of any length; loop induction over manyLoop), right-associative chains nest to the "
-         "right, prefix operators stack, parentheses override all. Class TL: operand Word(cs); suppressed parentheses; every "
-         "level a LEFT- or RIGHT-associative binary or a prefix operator without parse action; spellings non-empty, not "
-         "starting with a blank or operand character, pairwise prefix-incomparable. PP.Infix.infix_roundtrip_partial "
-         "(PPProofs/Props/C16.lean) is the earlier statement for class T (no LEFT-associative levels); it is kept and is an "
-         "instance of the new one (infix_roundtrip_left_covers_right). Supporting theorems: Left.goal_binL / Left.chain_parse "
-         "(the _FB lookahead succeeds on a op b, then Group(last + (op + last)[1,...]) collects the whole chain and stops where "
-         "the operator literal does not match), Left.goal_lift (a tighter tree passes through a looser level unchanged: the _FB "
-         "lookahead fails), Left.goal_atom/goal_paren/goal_pre/goal_binR, chain_nest (nest of a left chain is one flat group). "
+         "group [a, op, b, op, c], a POSTFIX chain a op op is ONE flat group [a, op, op] (chains of any length; loop "
+         "induction over manyLoop), right-associative chains nest to the right, a RIGHT-associative ternary a op1 b op2 c "
+         "is one group of five nesting to the right, a LEFT-associative ternary chain a op1 b op2 c op1 d op2 e is ONE flat "
+         "group, prefix operators stack, parentheses override "
+         "all; a kept (non-Suppress) lpar/rpar gives the group [lpar?, inner, rpar?], suppressed ones leave no trace. "
+         "Class G: operand Word(cs); lpar and rpar each suppressed or kept; every level a LEFT- or RIGHT-associative binary, "
+         "a prefix, a postfix or a LEFT- or RIGHT-associative ternary operator without parse action (all six kinds L1 L2 L3 R1 R2 "
+         "R3); spellings non-empty, not starting "
+         "with a blank or operand character, first operators pairwise prefix-incomparable, a ternary level's second operator "
+         "prefix-incomparable with every first operator. The earlier statements are kept and are instances: "
+         "PP.Infix.infix_roundtrip_left_partial (C16Left.lean; class TL = G without postfix levels, suppressed parentheses; "
+         "infix_roundtrip_general_covers_left) and PP.Infix.infix_roundtrip_partial (C16.lean; class T = TL without "
+         "LEFT-associative levels; infix_roundtrip_left_covers_right). infix_roundtrip_post_partial spells the conclusion "
+         "out for a postfix application. Supporting theorems: Gen.post_parse/Gen.goal_post (the _FB(last + op) lookahead "
+         "succeeds, Group(last + op[1,...]) collects every operator and stops where the literal does not match), "
+         "Gen.chain_parse/Gen.goal_binL (left-associative chains), Gen.goal_paren (all four suppress/keep combinations), "
+         "Gen.goal_lift (a tighter tree passes through a looser level of any of the six kinds unchanged: the _FB lookahead "
+         "fails), Gen.goal_atom/goal_pre/goal_binR/goal_ternR, Gen.goal_ternL/tern_parse/t_nest, Gen.p_nest, Left.chain_nest. "
          "PARTIAL - NOT proved, covered by the correspondence legs and the independent precedence-climbing oracle only: "
-         "postfix and ternary levels, kept (non-Suppress) parentheses, "
          "level parse actions, overlapping spellings (<, <=, *, **), ill-formed strings, evaluation (a corollary of the "
          "nesting) and packrat (C02's packrat_transparent covers the shared model, not parseStepX/_FB; packrat is compared on "
          "the real code on every case).",
@@ -70,6 +78,26 @@ THEOREMS = [
     "PP.Infix.Left.goal_paren",
     "PP.Infix.Left.goal_pre",
     "PP.Infix.Left.goal_binR",
+    # POSTFIX levels and kept parentheses (PPProofs/Props/C16Gen.lean, PPProofs/Lemmas/InfixGen.lean)
+    "PP.Infix.infix_roundtrip_general_partial",
+    "PP.Infix.infix_roundtrip_general_covers_left",
+    "PP.Infix.infix_roundtrip_post_partial",
+    "PP.Infix.Gen.goal_all",
+    "PP.Infix.Gen.lift_all",
+    "PP.Infix.Gen.goal_post",
+    "PP.Infix.Gen.post_parse",
+    "PP.Infix.Gen.p_nest",
+    "PP.Infix.Gen.goal_binL",
+    "PP.Infix.Gen.chain_parse",
+    "PP.Infix.Gen.goal_lift",
+    "PP.Infix.Gen.goal_atom",
+    "PP.Infix.Gen.goal_paren",
+    "PP.Infix.Gen.goal_pre",
+    "PP.Infix.Gen.goal_binR",
+    "PP.Infix.Gen.goal_ternR",
+    "PP.Infix.Gen.goal_ternL",
+    "PP.Infix.Gen.tern_parse",
+    "PP.Infix.Gen.t_nest",
 ]
 
 WS_DEFAULT = " \t\n\r"
@@ -1054,7 +1082,7 @@ def juxta_job(seed):
 def run(ctx):
     common.import_pyparsing()
     if THEOREMS:
-        ctx.proof_leg("PPProofs.Props.C16", THEOREMS, extra_modules=("PPProofs.Props.C16Left",))
+        ctx.proof_leg("PPProofs.Props.C16", THEOREMS, extra_modules=("PPProofs.Props.C16Left", "PPProofs.Props.C16Gen"))
     else:
         b = common.lake_build(["PPModel", "ppdriver"])
         if not b.ok:
